@@ -167,7 +167,7 @@ def _pb_expand(chunk):
 
 
 def bfs_parallel(make, apply, events_of, canon, jobs=16, max_depth=None, max_states=None, terminal=None,
-                 static_events=None, root=()):
+                 static_events=None, root=(), collect_states=None):
     import multiprocessing
     _PB.update(make=make, apply=apply, events_of=events_of, canon=canon, terminal=terminal, static=static_events)
     sim0 = make()
@@ -195,6 +195,8 @@ def bfs_parallel(make, apply, events_of, canon, jobs=16, max_depth=None, max_sta
                     if key not in seen:
                         seen.add(key)
                         nxt.append(h2)
+                        if collect_states is not None:
+                            collect_states.append(h2)
             if max_states is not None and len(seen) >= max_states:
                 res["capped"] = True
                 break
@@ -206,3 +208,18 @@ def bfs_parallel(make, apply, events_of, canon, jobs=16, max_depth=None, max_sta
     res["states"] = len(seen)
     res["depth"] = depth
     return res
+
+
+def parallel_map(fn, items, jobs=16):
+    """fork-pool map for run_main parts (fn must be a module-level function)."""
+    import multiprocessing
+    if not items:
+        return []
+    ctx = multiprocessing.get_context("fork")
+    n = max(1, min(len(items), jobs * 4))
+    chunks = [items[i::n] for i in range(n)]
+    with ctx.Pool(jobs) as pool:
+        out = []
+        for part in pool.map(fn, chunks):
+            out.extend(part)
+    return out
